@@ -345,10 +345,17 @@ class _InstallWrapper(IpcCommand):
                         if os.path.islink(source):
                             dest = pjoin(dest_dir, dirname)
                             self.install_symlinks([(source, dest)])
+                    filenames = [
+                        f for f in filenames if self._allowed_file(pjoin(dirpath, f))
+                    ]
                     if filenames:
                         self.install(
                             (pjoin(dirpath, f), pjoin(dest_dir, f)) for f in filenames
                         )
+
+    def _allowed_file(self, path):
+        """Determine if a file found while recursing is to be installed."""
+        return True
 
     @staticmethod
     def _set_attributes(opts, path):
